@@ -52,6 +52,10 @@ type Policy struct {
 	// the ticket, not the realm.  Not conformant (RFC 4120 3.2.3); used to let referral chains run
 	// past the second hop so that the bound on chains can be exercised at all.
 	LenientAuthCRealm bool `json:"lenient_auth_crealm,omitempty"`
+	// ExpiryGraceS: a ticket presented in a TGS-REQ is refused as expired only when the current time
+	// is later than its end time by more than this allowance (RFC 4120 3.2.3: "later than end time
+	// by more than the allowable clock skew"); 0 = no allowance.  Both are conformant.
+	ExpiryGraceS int64 `json:"expiry_grace_s,omitempty"`
 	// S2KParamsForAll: ETYPE-INFO2 carries 4-byte s2kparams also for des3 and rc4 (which define none)
 	// and for AES principals with default parameters: drives clients into their parameter error paths.
 	S2KParamsForAll bool `json:"s2kparams_for_all,omitempty"`
@@ -845,7 +849,7 @@ func (k *KDC) handleTGS(req *rk.KDCReq, rec *ReqRecord, l *taskLog, pt []Perturb
 	if d := now.Sub(at); d > 5*time.Minute || d < -5*time.Minute {
 		return bad(rk.ErrSkew, fmt.Sprintf("authenticator time off by %v", d))
 	}
-	if now.After(tgt.EndTime) {
+	if now.After(tgt.EndTime.Add(time.Duration(k.Policy.ExpiryGraceS) * time.Second)) {
 		return bad(rk.ErrTktExpired, "TGT expired")
 	}
 	if req.Realm != k.Realm {
